@@ -62,6 +62,18 @@ def run(ctx):
     pe.memo.clear()
     r2 = pe.explore(c, {'command': E['SFC_FILE_TRUNCATE'], 'psf->file.mode': E['SFM_READ'], 'datasize': 8, 'sndfile': 1, 'psf->virtual_io': 1})
     ctx.ob('TRUNCATE', 'readonly-refused', 'psf_ftruncate' not in r2.calls, c.loc(c.body), 'read-only handle %s' % ('never reaches psf_ftruncate' if 'psf_ftruncate' not in r2.calls else 'can be truncated'), None)
+    # the count that becomes sf.frames is not negative: a failed sf_seek returns -1, so `sf_seek (...) != position` does not refuse a request for -1 frames
+    from engine.bounds import Bounds as _Bd8
+    bd8 = _Bd8(prog, c, eff)
+    from engine.arms import switch_arm_stmts as _sas8
+    arm8 = [st_ for sw_ in c.walk() if sw_['k'] == 'SwitchStmt' for vals_, names_, dflt_, stmts_ in _sas8(c, sw_) if E['SFC_FILE_TRUNCATE'] in vals_ for st_ in stmts_]
+    fr = [(a_, r_) for st_ in arm8 for lv_, a_, r_ in assigned_lvalues(c, st_) if lv_ == 'psf->sf.frames' and r_ is not None]
+    ctx.require(fr, 'SFC_FILE_TRUNCATE no longer stores the new frame count')
+    for a_, r_ in fr:
+        b8 = bd8.ev_at(c.unwrap(r_), c.cfg.point(a_))
+        ok8 = b8.lo is not None and b8.lo >= 0
+        ctx.ob('TRUNCATE', 'non-negative', ok8, c.loc(a_), 'the new frame count `%s` is %s' % (c.s(c.unwrap(r_)), 'proved >= 0 where it is stored (%r)' % b8 if ok8 else
+               'NOT proved >= 0 (%r): for -1 the failed sf_seek returns the requested value, the command goes on and truncates the file to its header' % b8), None)
     # order inside the case: ftruncate argument is the value of psf_fseek (psf, 0, SEEK_CUR) taken after sf_seek
     seeks = [x for x in c.calls('sf_seek') if any(a['k'] == 'CaseStmt' for a in c.ancestors(x))]
     tr = list(c.calls('psf_ftruncate'))
